@@ -420,7 +420,14 @@ func (c *wsConnection) subscribe(start time.Time, msg *message) {
 	go func() {
 		ctx = withSubscriptionErrorContext(ctx)
 		defer func() {
-			if r := recover(); r != nil {
+			r := recover()
+			// forget the operation before the client is told that it is over: a client may use
+			// the id again as soon as it has seen the complete (or error) message, and deleting
+			// afterwards would remove the entry of that new operation
+			c.mu.Lock()
+			delete(c.active, msg.id)
+			c.mu.Unlock()
+			if r != nil {
 				err := rc.Recover(ctx, r)
 				var gqlerr *gqlerror.Error
 				if !errors.As(err, &gqlerr) {
@@ -436,9 +443,6 @@ func (c *wsConnection) subscribe(start time.Time, msg *message) {
 			} else {
 				c.complete(msg.id)
 			}
-			c.mu.Lock()
-			delete(c.active, msg.id)
-			c.mu.Unlock()
 			cancel()
 		}()
 
